@@ -1145,6 +1145,18 @@ class SyncInterpreter(BaseInterpreter[TContext, TEvent]):
             if explicit_id
             else f"{self.id}:{key}:{uuid.uuid4()}"
         )
+        # ♻️ Re-using an id replaces the registration below. The previous
+        #    actor must be stopped first: otherwise it is unreachable by id,
+        #    absent from `_actors` (so `stop()` never reaches it) and its
+        #    timers keep running - an orphan that outlives the parent.
+        previous = self._actors.pop(actor_id, None)
+        if previous is not None:
+            logger.warning(
+                "⚠️ Actor id '%s' is already in use; stopping the previous "
+                "actor before spawning its replacement.",
+                actor_id,
+            )
+            previous.stop()
         child = SyncInterpreter(actor_machine)
         child.parent = self
         child.id = actor_id
